@@ -1,6 +1,7 @@
 import HmfVerif.Real.Tactics
 import HmfVerif.Gen.ExprGrowth
 import HmfVerif.Gen.ExprFlow
+import HmfVerif.Spec.Wiring
 /-!
 # C09 — growth factor: normalisation, Einstein–de Sitter limits, dispatch  (mostly numerical: see DESIGN)
 The integral model (quadrature of 1/(aE)³), the splines and CAMB are opaque; what is algebra on the
@@ -83,4 +84,7 @@ theorem transfer_growth_dispatch :
   simp only [Gen.Flow.Transfer_growth_factor]; expr_unfold; push_cast
   norm_num
 end
+/-- the growth component is built from the object's cosmology (with `cosmo_params` applied) and `growth_params` only -/
+theorem growth_component_wiring : Gen.Flow.wiring.lookup "Transfer.growth" = some Spec.Wiring.growth := by decide
+
 end Hmf.C09
